@@ -171,7 +171,23 @@ impl CodeGen<'_> {
             }
             28..=39 if !ctx.globals.is_empty() => {
                 let (g, t, m) = *self.rng.pick(&ctx.globals);
-                if m && self.rng.chance(1, 2) {
+                if ctx.atomics && matches!(t, VT::I32 | VT::I64) && self.rng.chance(1, 3) {
+                    // shared-everything-threads atomic global accesses (legal on unshared globals)
+                    let acq = self.rng.chance(1, 2);
+                    let k = if m { self.rng.below(9) as u8 } else { 0 };
+                    match k {
+                        0 => {}
+                        8 => {
+                            push_default(out, t);
+                            push_default(out, t);
+                        }
+                        _ => push_default(out, t),
+                    }
+                    out.push(Ins::GlobalAtomic(k, acq, g));
+                    if k != 1 {
+                        out.push(Ins::Drop);
+                    }
+                } else if m && self.rng.chance(1, 2) {
                     push_default(out, t);
                     out.push(Ins::GlobalSet(g));
                 } else {
@@ -1648,6 +1664,18 @@ pub fn gen_history(rng: &mut Rng, p: &Profile, st: &mut GenState, base: &ModuleS
 
 pub fn gen_tail(rng: &mut Rng, reencode: bool) -> Vec<Tail> {
     if !reencode {
+        // one encoding, or (1 in 5) a second one after a first successful / failed emission: the
+        // structural oracles then also judge the last encoding against the model
+        if rng.chance(1, 5) {
+            let first = match rng.below(20) {
+                0..=11 => Tail::Encode,
+                12..=14 => Tail::EmitOk,
+                15..=16 => Tail::EmitFail(FailKind::Enospc),
+                17..=18 => Tail::EmitFail(FailKind::Enoent),
+                _ => Tail::EmitFail(FailKind::Eisdir),
+            };
+            return vec![first, Tail::Encode];
+        }
         return vec![Tail::Encode];
     }
     let n = rng.range(2, 4);
@@ -1695,5 +1723,6 @@ pub fn gen_scenario(property: &str, p: &Profile, run_seed: u64, reencode_tail: b
         info: None,
         walk: None,
         comp: None,
+        xproc: 0,
     })
 }
